@@ -101,6 +101,9 @@ def check(run):
             it = cborgen.nested(depth, indef)
             line, e = mk("s", it, ["sk"], ["ok"], 7, 0)
             cases.append((line, e, "skip:deep%d" % depth))
+    for depth in ([1000, 300000] if quick else [1000, 300000, 4000000]):
+        line, e = mk("s", cborgen.nested_tags(depth), ["sk"], ["ok"], 9, 0)
+        cases.append((line, e, "skip:deeptags%d" % depth))
     # int64 boundary saturation (documented API limit; model-only expectation)
     for n, w in ((2**63, "w8"), (2**64 - 1, "w8")):
         it = cborgen.g_uint(rng, n, w)
